@@ -44,5 +44,12 @@ Attached == { Attach(tc, de) : tc \in { x \in F24 \cup F12 \cup F12h \cup F12n :
 
 (* calendar mode (DateTimeOptions 4) filters some expressions on purpose, never a clock time with minutes *)
 Calendar == { [c EXCEPT !.opt = 4, !.form = c.form \o " (calendar mode)"] : c \in F24 \cup F12 \cup F12n \cup { a \in Attached : a.hour \in {1, 13} } }
-Cases == F24 \cup F24s \cup F12 \cup F12h \cup F12n \cup Attached \cup Calendar
+(* split mode (DateTimeOptions 2): "<date> at <time>" comes back as the date and, after it, the time with its readings *)
+SplitOne(tc, de) ==
+  LET text == de.text \o " at " \o tc.text IN
+  [tc EXCEPT !.text = text, !.s = Len(de.text) + 4, !.e = Len(text) - 1, !.opt = 2, !.form = "date at " \o tc.form \o " (split mode)"]
+  @@ [lead |-> [s |-> 0, e |-> Len(de.text) - 1, type |-> "date", ordered |-> FALSE, vals |-> <<V1(OrdStr(de.day), "date", OrdStr(de.day))>>]]
+SplitMode == { SplitOne(tc, de) : tc \in { x \in F24 \cup F12 \cup F12h \cup F12n : x.vals[1][3] \in {"00:30:00", "03:00:00", "09:05:00", "12:00:00", "15:00:00", "23:59:00", "03:30:00"} },
+                               de \in { d \in DateExprs : d.text \in {"2016-11-07", "tomorrow", "next monday"} } }
+Cases == F24 \cup F24s \cup F12 \cup F12h \cup F12n \cup Attached \cup Calendar \cup SplitMode
 =============================================================================
